@@ -32,6 +32,14 @@ Theorem C16_earlier_kept : forall k a b, lookup k b = None -> lookup k (a ++ b) 
 Proof. exact lookup_app_earlier. Qed.
 Print Assumptions C16_earlier_kept.
 
+(** Merge with several operands is the left fold of pairwise merges (fields, struct tests and
+    PostTransforms concatenated in operand order; by [C16_later_wins] later operands win conflicts) *)
+Theorem C16_merge_many_is_fold : forall l i js,
+  pstep l (OMergeN i js) = l ++ [fold_left pmerge (map (pget l) js) (pget l i)]
+  /\ pstep l (OMerge i (hd 0 js)) = l ++ [pmerge (pget l i) (pget l (hd 0 js))].
+Proof. exact merge_many_is_fold. Qed.
+Print Assumptions C16_merge_many_is_fold.
+
 (** the aliasing the repair of cloneShallow removed (regression witness on the legacy variant) *)
 Theorem C16_legacy_clone_refuted :
   let ops := [ONew [("a"%string, 1)]; OTest 0 10; OTest 0 11; OTest 0 12;
